@@ -46,6 +46,8 @@ def run(ctx):
     prog = common.view(ctx, "default")
     lib = prog.lib
     roles = common.role_fields(ctx, lib, want=("repetition", "min_repetitions", "min_substring_length"))
+    ctx.rule("DEF-1", "RegExpConfig::new(): every boolean option off, both thresholds 1")
+    common.def1(ctx, lib)
     cons = constructors(lib)
     if not ctx.floor("THR-G2", "Grapheme constructor functions", len(cons), 2):
         return
